@@ -515,6 +515,7 @@ class AbsRun:
                 isinstance((s.targets[0] if isinstance(s, ast.Assign) else s.target), (ast.Subscript, ast.Attribute)) and \
                 (isinstance(s, ast.AnnAssign) or len(s.targets) == 1) and s.value is not None:
             tgt = s.targets[0] if isinstance(s, ast.Assign) else s.target
+            tgt = self.ev._deep_alias(tgt)  # `tree = self.tree_array; tree[p] = v` stores to self.tree_array[p]
             try:
                 v = self.ev.ev(s.value)
             except Inconclusive as exc:
